@@ -46,7 +46,7 @@ func (u *Unit) query(ob *Obligation, forCVC bool, withModel bool) string {
 			b.WriteString(c.text)
 			b.WriteByte('\n')
 		case cmdOblig:
-			if c.ob.Canary {
+			if c.ob.Canary || ob.Canary {
 				continue
 			}
 			fmt.Fprintf(&b, "(assert %s)\n", implies(c.ob.Guard, c.ob.Cond))
